@@ -121,8 +121,8 @@ for kind, depth, limit, entry, opts in cases:
                 uc = user_calls(r)
                 if uc: res = 'RecursionError-in-user-call:' + uc
                 elif sys.getrecursionlimit() != limit: res = 'recursion-limit-changed:%%d' %% sys.getrecursionlimit()
-                else:
-                    # the tree built close to the limit is the tree built with plenty of stack
+                elif limit <= 1000:
+                    # the tree built close to the limit is the tree built with plenty of stack (limits up to 1000: beyond, the second parse is too slow)
                     sys.setrecursionlimit(max(20000, 8 * limit))
                     try:
                         ref = sqlparse.parse(text)
